@@ -284,7 +284,7 @@ func (g *routerGen) segment(opt bool, kindBias int) *Sx {
 	}
 	switch k {
 	case 0:
-		return T("seg", o, T("id", X([]string{"a", "b", "ab", "a.b", "c", "a+b", "x(y)", "$", "a*", "v1"}[rng.Intn(10)])))
+		return T("seg", o, T("id", X([]string{"a", "b", "ab", "a.b", "c", "a+b", "x(y)", "$", "a*", "v1", "a%20b"}[rng.Intn(11)]))) // "a%20b": the text, not "a b"
 	case 1:
 		return T("seg", o, T("bind", X(name())))
 	case 2:
@@ -442,6 +442,11 @@ func (g *routerGen) instance(r *Sx) string {
 
 func (g *routerGen) perturb(p string) string {
 	rng := g.rng
+	if strings.Contains(p, "%") && rng.Intn(2) == 0 {
+		if u, err := url.PathUnescape(p); err == nil && u != p {
+			return u // the decoded spelling is another path: "/a b" is not the static route "/a%20b"
+		}
+	}
 	switch rng.Intn(8) {
 	case 0:
 		return p + "/"
@@ -473,7 +478,7 @@ func (g *routerGen) randomPath() string {
 	rng := g.rng
 	var parts []string
 	for k := 1 + rng.Intn(5); k > 0; k-- {
-		parts = append(parts, []string{"a", "b", "ab", "", "12", "zz", "a1", "a.b", "x-y", "c", "v1", "$", "a+b"}[rng.Intn(13)])
+		parts = append(parts, []string{"a", "b", "ab", "", "12", "zz", "a1", "a.b", "x-y", "c", "v1", "$", "a+b", "a b", "a%20b"}[rng.Intn(15)])
 	}
 	return "/" + strings.Join(parts, "/")
 }
@@ -551,7 +556,11 @@ func (g *routerGen) reqHeaders() []*Sx {
 	var out []*Sx
 	for _, n := range []string{"X-K", "User-Agent", "Accept"} {
 		if rng.Intn(2) == 0 {
-			out = append(out, T("h", X(n), X([]string{"v", "", "12", "a", "ab", "xvx", "b", " v", "ab ", " ", "\t12"}[rng.Intn(11)]))) // blanks are part of the value
+			val := []string{"v", "", "12", "a", "ab", "xvx", "b", " v", "ab ", " ", "\t12"}[rng.Intn(11)] // blanks are part of the value
+			if rng.Intn(25) == 0 {
+				val = strings.Repeat("z", 1030) + val // a long value is matched whole
+			}
+			out = append(out, T("h", X(n), X(val)))
 		} else if rng.Intn(12) == 0 {
 			out = append(out, T("h", X(n), A("novalues"))) // the key is in the header map with an empty list of values
 		}
@@ -736,6 +745,14 @@ func (rr *routerRun) register(idx int, ms *Sx, r *Sx) (ok bool) {
 		}
 	}()
 	text := routeText(r)
+	// the same route under another spelling (blanks after ':' are optional): what handlers are told as "route" is the
+	// canonical text, however the route was written
+	switch idx % 3 {
+	case 1:
+		text = strings.ReplaceAll(text, ": ", ":")
+	case 2:
+		text = strings.ReplaceAll(text, ": ", ":  ")
+	}
 	h := func(c flamego.Context) {
 		var ps []*Sx
 		params := c.Params()
